@@ -5,6 +5,7 @@ use crate::comp_r1cs::{make_basis, msm_coeffs};
 use crate::gen::edge_scalar;
 use crate::run::*;
 use ark_bulletproofs::verif_hooks::{ipp_verification_scalars, InnerProductProof};
+use ark_ec::{CurveGroup, VariableBaseMSM};
 use ark_ec::AffineRepr;
 use ark_ff::{Field, PrimeField, UniformRand, Zero, One};
 use ark_serialize::{CanonicalDeserialize, CanonicalSerialize};
@@ -202,6 +203,49 @@ pub fn gen_and_run<G: AffineRepr>(curve: &str, ci: u64, modulus: &str, seed: u64
         }
         summary.push('\n');
         outs.push(IppOut { coq, obs, summary, id });
+    }
+    // long arguments (2^7 .. 2^10): the real code only — honest create must verify, for the factor patterns the R1CS
+    // layer produces (ones then u, with a short or long first block), all-ones and arbitrary factors
+    let ks: Vec<usize> = if tier == "thorough" { vec![7, 8, 9, 10] } else { vec![8] };
+    for (bi, k) in ks.iter().enumerate() {
+        let n = 1usize << k;
+        let bp = ark_bulletproofs::BulletproofGens::<G>::new(n, 1);
+        let gs: Vec<G> = bp.G(n, 1).copied().collect();
+        let hs: Vec<G> = bp.H(n, 1).copied().collect();
+        let q: G = G::rand(&mut rng);
+        for pat in 0..5 {
+            let id = format!("ippbig_{}_{}_{}", ci, bi, pat);
+            let u = F::<G>::rand(&mut rng);
+            let n1 = match pat { 0 => 1, 1 => n / 2 - 1, 2 => n / 4 + 3, _ => 0 };
+            let gf: Vec<F<G>> = match pat {
+                0 | 1 | 2 => (0..n).map(|i| if i < n1 { F::<G>::one() } else { u }).collect(),
+                3 => vec![F::<G>::one(); n],
+                _ => (0..n).map(|_| F::<G>::rand(&mut rng)).collect(),
+            };
+            let y = F::<G>::rand(&mut rng);
+            let mut acc = F::<G>::one();
+            let hf: Vec<F<G>> = gf.iter().map(|g| { let r = acc * g; acc *= y; r }).collect();
+            let a: Vec<F<G>> = (0..n).map(|_| F::<G>::rand(&mut rng)).collect();
+            let b: Vec<F<G>> = (0..n).map(|_| F::<G>::rand(&mut rng)).collect();
+            let ip: F<G> = a.iter().zip(b.iter()).map(|(x, y)| *x * y).sum();
+            let mut pts: Vec<G> = gs.clone(); pts.extend(hs.iter().copied()); pts.push(q);
+            let mut scs: Vec<F<G>> = a.iter().zip(gf.iter()).map(|(x, g)| *x * g).collect();
+            scs.extend(b.iter().zip(hf.iter()).map(|(x, h)| *x * h)); scs.push(ip);
+            let p_pt: G = G::Group::msm(&pts, &scs).unwrap().into_affine();
+            let res = catch_unwind(AssertUnwindSafe(|| {
+                let mut t = Transcript::new(b"innerproducttest");
+                let proof = InnerProductProof::<G>::create(&mut t, &q, &gf, &hf, gs.clone(), hs.clone(), a.clone(), b.clone());
+                let mut tv = Transcript::new(b"innerproducttest");
+                proof.verify(n, &mut tv, gf.iter(), hf.iter(), &p_pt, &q, &gs, &hs)
+            }));
+            let vcode = match &res { Ok(Ok(())) => 0, Ok(Err(_)) => 1, Err(_) => 99 };
+            outs.push(IppOut {
+                coq: String::new(),
+                obs: format!("{} 15 {}\n", id, vcode),
+                summary: format!("{} {} nomodel=1 tag=ipp-big-honest pattern={} prover=0 basis={},1 k={} scalars=0 verdict={}\n", id, curve, pat, n, k, vcode),
+                id,
+            });
+        }
     }
     outs
 }
